@@ -36,11 +36,12 @@ RESOURCES = {
     'data_stack': None, 'return_stack': 'rs_len', 'loops': 'ls_len', 'special': 'ss_ptr', 'sources': None,
     # cells that `var` allocates while the source is built
     'heap': None,
+    # what the meta blocks of the source logged (C02): the entries refer to code that is cut away
+    'reverse_log': None,
 }
 CORE_RESOURCES = ('input', 'flow_stack', 'code', 'debug_map', 'dict')      # identify a release function
 # State fields that code reachable from a build entry grows and that are deliberately not rolled back
 GROWN_EXEMPT = {
-    'reverse_log': 'the debugger log records what happened, rejected or not; it does not influence later sources (C15.R1)',
     'stdout': 'captured output that was already produced',
     'nested': 'restored by popping (releases:nested)', 'ctx': 'restored from nested (releases:ctx)',
 }
@@ -114,6 +115,71 @@ def is_halt_write(f, w):
         if isinstance(x, tuple) and x[0] == 'call' and x[1].endswith('::len') and 'code' in expr_str(x):
             return True
     return False
+
+
+_IPSET = {}
+
+
+def ip_setters(fx, W):
+    """functions that assign ctx.ip from one of their arguments (set_ip): a call with code_origin() as that argument is a halt"""
+    k = id(fx)
+    if k not in _IPSET:
+        out = set()
+        for fn, ws in W.items():
+            f = fx.fns.get(fn)
+            for w in ws:
+                if f is not None and w['field'][:2] == ('ctx', 'ip') and w['how'].startswith('assign') and w.get('stmt'):
+                    e = f.expr_of_rvalue(w['stmt']['rv'], 0, frozenset())
+                    if any(isinstance(x, tuple) and x[0] == 'arg' and x[1] >= 2 for x in expr_walk(e)) and not \
+                            any(isinstance(x, tuple) and x[0] == 'bin' for x in expr_walk(e)):
+                        out.add(fn)
+        _IPSET[k] = out
+    return _IPSET[k]
+
+
+def _end_of_code(e):
+    for x in expr_walk(e):
+        if isinstance(x, tuple) and x[0] == 'call' and x[1] in ('state::State::code_origin',):
+            return True
+        if isinstance(x, tuple) and x[0] == 'call' and x[1].endswith('::len') and 'code' in expr_str(x):
+            return True
+    return False
+
+
+def halt_sites(fx, W, f, ws):
+    """[{bb, at}]: where f sets the ip to the end of the code - by assignment or through the logging setter"""
+    out = [{'bb': w['bb'], 'at': w['at']} for w in ws if is_halt_write(f, w)]
+    setters = ip_setters(fx, W)
+    for bb, t in f.calls():
+        if callee_of(t) in setters and any(_end_of_code(f.expr_of_operand(a)) for a in t['args'][1:]):
+            out.append({'bb': bb, 'at': t.get('at')})
+    if out:
+        # `if ip != end { set_ip(end) }`: on the side where the test finds ip == end the program is halted already
+        from ..pathq import cmp_of
+        for bb in f.reachable_blocks():
+            br = bool_branch(f, bb)
+            c = cmp_of(br[0]) if br else None
+            if not c or c[0] not in ('Eq', 'Ne'):
+                continue
+            sa, sb = expr_str(c[1], -10), expr_str(c[2], -10)
+            isip = lambda t: 'State::ip(' in t or t.endswith('.ctx.ip')
+            if (isip(sa) and _end_of_code(c[2])) or (isip(sb) and _end_of_code(c[1])):
+                out.append({'bb': br[1] if c[0] == 'Eq' else br[2], 'at': out[0]['at']})
+    return out
+
+
+def drop_blocks(fx, W, f, ws, fld):
+    """blocks where f empties the run-time stack `fld` down to its floor: a truncate, or a floored pop primitive called in a loop"""
+    out = {x['bb'] for x in ws if x['field'][0] == fld and x['how'].startswith('call:shrink')}
+    poppers = {fn for fn, ws2 in W.items() if any(x['field'][0] == fld and x['how'].startswith('call:shrink:pop') for x in ws2)}
+    from ..pathq import natural_loops
+    inloop = set()
+    for h, body, tail in natural_loops(f):
+        inloop |= set(body)
+    for bb, t in f.calls():
+        if callee_of(t) in poppers and bb in inloop:
+            out.add(bb)
+    return out
 
 
 def run(rep, facts, tier):
@@ -195,10 +261,14 @@ def run(rep, facts, tier):
         n_rel += 1
         ws = Wv(rf)
         rets = set(f.return_blocks())
-        halts = {w['bb'] for w in ws if is_halt_write(f, w)}
+        halts = {h['bb'] for h in halt_sites(fx, W, f, ws)}
         for res, mark in sorted(RESOURCES.items()):
             sites = [w for w in ws if w['field'][0] == res and w['how'].startswith('call:shrink')]
             blocks = {w['bb'] for w in sites}
+            if res == 'reverse_log' and sites:
+                # the log is an Option: with recording off there is nothing to cut.  The place where the Option is opened for
+                # writing is where the release happens or is found unnecessary
+                blocks |= {ev['bb'] for ev in awrite.field_events(fx, f, {'state::State': {'reverse_log'}}) if ev['mut']}
             p = exists_path_avoiding(f, 0, lambda b: b in rets, blocks | halts)
             ok = p is None and bool(sites)
             why = 'every path through %s truncates State.%s (or takes the halt path)' % (short(rf), res)
@@ -302,7 +372,7 @@ def run(rep, facts, tier):
         rep.add('C10.R2', 'C10.R2:%s:halt-on-failed-run' % rf, bool(halts),
                 'the built-but-failed-at-run path sets ctx.ip to the end of the code (program halted)' if halts else
                 '%s has no halt write for a source that failed while running' % short(rf), rf,
-                [w for w in ws if is_halt_write(f, w)][0]['at'] if halts else f.j['span'])
+                halt_sites(fx, W, f, ws)[0]['at'] if halts else f.j['span'])
     rep.floor('C10 release functions', n_rel, 1)
 
     # everything a build can grow is either released or deliberately kept: State fields with a growing write in code reachable
@@ -420,8 +490,8 @@ def check_r2(rep, fx, W, V, Wv):
         if fn not in fx.fns or V.transparent(fn):
             continue      # helpers are seen through their callers, guards included
         f = V(fn)
-        for w in Wv(fn):
-            if is_halt_write(f, w):
+        for w in halt_sites(fx, W, f, Wv(fn)):
+            if True:
                 # guards: branch conditions this write is control dependent on
                 guards = []
                 dom = f.dominators()
@@ -436,9 +506,8 @@ def check_r2(rep, fx, W, V, Wv):
     # the direct sites in run/next error path
     for fn in ('state::State::run', 'state::State::next'):
         f = fx.need(fn)
-        for w in W.get(fn, []):
-            if is_halt_write(f, w):
-                found.append((fn, w, []))
+        for w in halt_sites(fx, W, f, W.get(fn, [])):
+            found.append((fn, w, []))
     if not found:
         rep.add('C10.R2', 'C10.R2:protocol:no-halt-write', False,
                 'neither the failing run, nor the next compile, nor the next run sets ctx.ip past the failed program: a REPL line '
@@ -454,7 +523,7 @@ def check_r2(rep, fx, W, V, Wv):
         rets = set(f.return_blocks())
         missing = []
         for fld in ('loops', 'return_stack', 'special'):
-            sb = {x['bb'] for x in ws if x['field'][0] == fld and x['how'].startswith('call:shrink')}
+            sb = drop_blocks(fx, W, f, ws, fld)
             ok_f = bool(sb) and (any(f.dominates(b, w['bb']) for b in sb) or exists_path_avoiding(f, w['bb'], lambda b: b in rets, sb) is None)
             if not ok_f:
                 missing.append(fld)
@@ -464,7 +533,13 @@ def check_r2(rep, fx, W, V, Wv):
                     '%s halts the failed program but keeps its %s: a later source compiled and run in the base context sees them '
                     '(after `3 0 do 1 0 / loop` fails, compile+run of `I` pushes 0 instead of failing)' % (short(fn), ', '.join(missing)), fn, w['at'])
     for fn, w, guards in found:
-        okg = all(('last_error' in g or 'nested' in g or 'runtime' in g) for g in guards)
+        # tests that belong to the halt itself (drain the stacks with the floored pops until they fail; set the ip if
+        # anything changed or it is not at the end yet) are not conditions ON the halt
+        pops_ = sorted({fn_ for fn_, ws_ in W.items() if any(x['field'][0] in ('loops', 'return_stack', 'special') and
+                                                             x['how'].startswith('call:shrink:pop') for x in ws_)})
+        own = lambda g: any(p_ in g for p_ in pops_) or re.fullmatch(r'phi\((0|1|true|false) \| (0|1|true|false)\)', g) is not None \
+            or ('State::ip(' in g and 'code' in g) or 'Underflow' in g
+        okg = all(('last_error' in g or 'nested' in g or 'runtime' in g or own(g)) for g in guards)
         rep.add('C10.R2', 'C10.R2:%s:halt-before-compile' % fn, okg,
                 'compile entry halts a program whose last step failed at run time (guards: %s)' % (guards or ['unconditional']) if okg else
                 'the halt write in %s is guarded by %s, not by the failed-run flag' % (short(fn), guards), fn, w['at'])
